@@ -122,7 +122,8 @@ def gen_case(rng, kind, jax_nonmultiple=False):
             "t0": (rng.choice([0, 0, 0, 1, 3]) if kind == "unit" and not n_inputs else 0),
             "T": q2s(Tq), "dt": q2s(dt), "dts": q2s(dts), "cutoff": q2s(rng.choice(cut_choices)), "backend": backend,
             "y0": [q2s(dy(rng, -2, 2, 2)) for _ in range(n)], "sampling_none": (s == 1 and rng.random() < 0.5),
-            "vectorize": rng.random() < 0.5}
+            "vectorize": rng.random() < 0.5,
+            "prior_scale": (rng.choice(["2", "1/2"]) if kind == "e2e" and rng.random() < (0.6 if backend == "jax" else 0.15) else None)}
 
 
 # ---------------------------------------------------------------- real code: unit level
@@ -212,6 +213,16 @@ def run_e2e(case):
                 kw["inputs"] = inputs
             if not case["sampling_none"]:
                 kw["sampling_step_size"] = float(Fraction(case["dts"]))
+            if case.get("prior_scale"):
+                # the same equations simulated before in this process on a time axis scaled by a factor: equal numbers of steps and rows, another dt
+                f_ = float(Fraction(case["prior_scale"]))
+                kw0 = dict(kw, simulation_time=kw["simulation_time"] * f_, step_size=kw["step_size"] * f_, cutoff=0.0)
+                if "sampling_step_size" in kw0:
+                    kw0["sampling_step_size"] = kw0["sampling_step_size"] * f_
+                try:
+                    CircuitTemplate(name="c", nodes={"p": NodeTemplate(name="n", operators=[OperatorTemplate(name="op", equations=eqs, variables=variables, path=None)], path=None)}, edges=[]).run(**kw0)
+                except Exception:
+                    pass
             try:
                 r = c.run(**kw)
             except Exception as e:
@@ -342,6 +353,42 @@ def float_grid(_):
                 shutil.rmtree(wd, ignore_errors=True)
     finally:
         bb.np = orig
+    return {"done": done, "bad": bad}
+
+
+def cutoff_decimal_probe(seed):
+    """cutoffs that lie ON a decimal sampling grid (step 0.01, 0.02, 0.005): exactly the rows whose index label is >= cutoff are returned"""
+    from pyrates import OperatorTemplate, NodeTemplate, CircuitTemplate
+    rng = random.Random(seed)
+    bad, done = [], 0
+    wd = tempfile.mkdtemp(prefix="c03c_")
+    cwd = os.getcwd()
+    os.chdir(wd)
+    try:
+        with warnings.catch_warnings():
+            warnings.simplefilter("ignore")
+            plans = [(0.01, [7, 14, 28, 56, 29, 57, 58] + rng.sample(range(1, 99), 4)), (0.02, [7, 14, 28] + rng.sample(range(1, 49), 2)), (0.005, [7, 14, 28, 56])]
+            for step, ks in plans:
+                T = step * 100 if step != 0.02 else 1.0
+                n = int(round(T / step))
+                times = np.arange(n) * step
+                full = None
+                for k in [0] + ks:
+                    cutoff = float(repr(round(k * step, 6)))          # the decimal literal a user would write (0.07, not 7*0.01)
+                    op = OperatorTemplate(name="op", equations=["x' = -x"], variables={"x": "output(1.0)"}, path=None)
+                    c = CircuitTemplate(name="c", nodes={"p": NodeTemplate(name="n", operators=[op], path=None)}, edges=[])
+                    r = c.run(simulation_time=T, step_size=step, solver="euler", outputs={"x": "p/op/x"}, float_precision="float64", verbose=False, clear=True, cutoff=cutoff)
+                    idx = [float(t) for t in r.index.values]
+                    vals = [float(v) for v in np.asarray(r.values).reshape(-1)]
+                    if k == 0:
+                        full = dict(zip(idx, vals))
+                    want = [float(t) for t in times if t >= cutoff]
+                    done += 1
+                    if idx != want or any(full.get(t) != v for t, v in zip(idx, vals)):
+                        bad.append({"step": step, "cutoff": cutoff, "rows": len(idx), "expected_rows": len(want), "first_label": idx[:1], "expected_first_label": want[:1]})
+    finally:
+        os.chdir(cwd)
+        shutil.rmtree(wd, ignore_errors=True)
     return {"done": done, "bad": bad}
 
 
@@ -548,6 +595,15 @@ def check(tier, seed, replay=None):
     if isinstance(tbad, dict):      # the probe itself raised inside PyRates: not this probe's question
         rep.notes.append("explicit-t probe raised: " + str(tbad.get("crash")))
         tbad = []
+    cp = C.run_forked(cutoff_decimal_probe, [seed], timeout=600)[0] if not replay else {"done": 0, "bad": []}
+    if "crash" in cp:
+        raise C.HarnessError("cutoff probe crashed: " + str(cp)[:400])
+    rep.count("cutoff-on-decimal-grid", None, n=cp["done"])
+    if cp["bad"]:
+        rep.violation(f"cutoff on a decimal grid: run() does not return exactly the rows with time >= cutoff (step {cp['bad'][0]['step']}, cutoff {cp['bad'][0]['cutoff']})", {"cutoff_probe": cp["bad"][:5]})
+    else:
+        for _ in range(cp["done"]):
+            rep.validated()
     rep.count("explicit-t-probe", None, n=2)
     if tbad:
         if "C03-explicit-t" in [f["id"] for f in C.load_known_findings() if f.get("status") == "known"]:
